@@ -14,7 +14,7 @@ import json,sys,os,shlex
 meta,out,m,wt=sys.argv[1:5]
 j=json.load(open(meta))
 dp=j.get("demo_path_in_repo")
-cmd=j.get("demo_cmd","")
+cmd=j.get("demo_cmd","").replace("<repo>", wt).replace("/path/to/hertz", wt)
 files=[]
 ddir=os.path.join(out,m+"_demo")
 for root,_,fs in os.walk(ddir):
